@@ -39,8 +39,8 @@ func ValidateRequiredFields(obj *unstructured.Unstructured, fieldsList [][]strin
 }
 
 var (
-	logDstEx     = regexp.MustCompile(`(?:syslog:server=((?:\d{1,3}\.){3}\d{1,3}|localhost|[a-zA-Z0-9._-]+):\d{1,5})|stderr|(?:\/[\S]+)+`)
-	logDstFileEx = regexp.MustCompile(`(?:\/[\S]+)+`)
+	logDstEx     = regexp.MustCompile(`^(?:(?:syslog:server=((?:\d{1,3}\.){3}\d{1,3}|localhost|[a-zA-Z0-9._-]+):\d{1,5})|stderr|(?:\/[\S]+)+)$`)
+	logDstFileEx = regexp.MustCompile(`^(?:\/[\S]+)+$`)
 	logDstFQDNEx = regexp.MustCompile(`(?:[a-zA-Z0-9_-]+\.)+[a-zA-Z0-9_-]+`)
 )
 
